@@ -99,18 +99,26 @@ def run(tier, seed):
         res = vlib.run_cases(bins, plan, seed, wd)
         v.absorb(res, byname, seed, floor_cases=n)
         compared = 0
+        torn = 0
         seen = set()
         kindsets = set()
         samples = []
         tagcount = {}
         for cname, (outp, esc) in outs.items():
             for path in glob.glob(outp + ".*"):
-                with open(path) as f:
-                    for line in f:
-                        idx, hx = line.split()
-                        idx = int(idx)
-                        text, vj, exp1, exp0, kinds, flags = cases[idx]
-                        got = "" if hx == "-" else bytes.fromhex(hx).decode("latin-1")
+                if True:
+                    for line in vlib.complete_lines(path):
+                        # a worker that died mid-line leaves a torn record (the death itself is reported by absorb)
+                        try:
+                            if not line.endswith("\n"):
+                                raise ValueError("no end of record")
+                            idx, hx = line.split()
+                            idx = int(idx)
+                            got = "" if hx == "-" else bytes.fromhex(hx).decode("latin-1")
+                            text, vj, exp1, exp0, kinds, flags = cases[idx]
+                        except (ValueError, IndexError):
+                            torn += 1
+                            continue
                         exp = exp1 if esc else exp0
                         compared += 1
                         seen.add(text)
@@ -130,6 +138,8 @@ def run(tier, seed):
                                           idx, cname, text[:700], vj[:500], exp[max(0, k - 40):k + 80], got[max(0, k - 40):k + 80], k))
                         elif len(samples) < 5 and idx % 3001 == 5 and len(kinds) >= 2:
                             samples.append({"template": text[:400], "value": vj[:300], "output": got[:200]})
+        if torn and not res.deaths:
+            v.inconclusive.append("%d torn output records although no worker died" % torn)
         if compared < n and not res.deaths:
             v.inconclusive.append("only %d outputs compared for %d cases" % (compared, n))
         cov = {
